@@ -179,7 +179,7 @@ func workerMain(args []string) int {
 		// a run normally takes milliseconds; one that is still going after a long
 		// real-time limit is reported to the parent as a suspected hang (the parent
 		// re-executes it alone, twice, before saying anything)
-		hangLimit := 90 * time.Second
+		hangLimit := 150 * time.Second
 		if *tier == "thorough" {
 			hangLimit = 240 * time.Second // long runs, possibly on a loaded machine
 		}
